@@ -39,7 +39,7 @@ BOUNDS = {
         "assumptions": ["oracle: the reference evaluator in harness/zz_verif_eval.go encoding Appendix A of DESIGN.md", "outside: surface syntax (ASTs are built directly), strings/hashes as operands, infix, deeper nesting"],
     },
     "C04": {
-        "all": "the C02 shapes (expr depth<=1, nested, loops, calls) + together; only evaluations that succeed. Outside: declarations (struct, func, method, interface, package), macros, range, infix blocks; the static stack-height pass of DESIGN §6 is not built.",
+        "all": "the C02 shapes (expr depth<=1, nested, loops, calls) + together; decls/idle: 47 programs of the full surface language in a sandbox with the standard setup (struct, var, func, method, interface, package incl. nested and with loops, defmac at top level/in functions/in loops, macexpand, multiple assignment, mdef, range over hashes and arrays with break/continue, infix blocks with :=, if/else, go-style for incl. labelled break/continue and range, indexing/slicing, eval/apply/map/expectError, closures) with a symbolic integer hole and a symbolic loop bound in 0..3, evaluated form by form, and evaluated 3 times over in one interpreter (idle growth); only evaluations that succeed. Outside: import/req builders (need files), programs outside the table, the static stack-height pass of DESIGN §6 (not built).",
         "assumptions": ["reads the unexported stacks of Zlisp (datastack, linearstack, addrstack, loopstack) from in-package harness code injected by overlay"],
     },
     "C05": {
@@ -96,7 +96,7 @@ BOUNDS = {
         "assumptions": ["nothing is asserted for names starting with a non-letter", "outside: depth 3, aliases at walker level (covered only by the scripted programs), infix assignment route with symbolic names"],
     },
     "C20": {
-        "all": "maps of at most 3 entries are permuted (larger maps keep insertion order); 3 scenarios. Outside: registry scans (reflection), fresh processes, pointer printing, maps larger than the bound.",
+        "all": "maps of at most 3 entries are permuted; larger maps are walked in insertion order and in reverse (case split per range); scenarios: symbols, decode, hashes, setup (sandbox + StandardSetup: outcome of (< 'a 'b) for 31 adjacent pairs of type/builder/builtin names), fresh (16 programs each run in three successive fresh interpreters of one process; value and error text equal). Outside: registry scans by reflection, fresh OS processes, pointer printing, permutations of large maps other than the reverse.",
         "assumptions": ["the engine's maps are insertion-ordered association lists; 'every order' means every permutation of the live entries at range time"],
     },
 }
